@@ -323,6 +323,23 @@ def run(ctx):
                 break
         if len([v for v in ctx.violations if v['kind'] == 'ellipsis-enabled-relation']) > 2:
             break
+    # the same with TAB characters inside the literal pieces (a TAB is an ordinary character of a piece; only blanks
+    # directly next to a marker belong to the wildcard)
+    tp = ['a\tb', 'x', 'a', 'yz', 'b', 'a\tb\tc', 'wide\tcol']
+    tgots = sorted({''.join(t) for n_t in (1, 2, 3) for t in _it.product(tp, repeat=n_t)})
+    twants = sorted({m.join(t) for n_t in (2, 3) for t in _it.product(tp + [''], repeat=n_t) for m in ('...', ' ... ')})
+    twants = [t for t in twants if t == t.strip() and '...' in t]
+    for w in twants:
+        for g in tgots:
+            non += 1
+            exp = (g == w) or spec_ellmatch(g, w)
+            if bool(checker.check_output(g, w, strict_on)) != exp:
+                ctx.violation('ellipsis-enabled-relation', {
+                    'what': "with ELLIPSIS on and every other leniency off check_output is %s, the wildcard relation says %s (texts with TAB)" % (not exp, exp),
+                    'got': g, 'want': w, 'theorem_or_correspondence': 'C06_ellipsis_iff lifted to check_output(+ELLIPSIS)'}, True)
+                break
+        if len([v for v in ctx.violations if v['kind'] == 'ellipsis-enabled-relation']) > 2:
+            break
     ctx.evaluations += non
     ctx.count('enabled_relation_pairs', non)
     ctx.evaluations += nmeta
